@@ -389,7 +389,7 @@ def run(ctx):
     guardvocab.G1(ctx, effects={'wake', 'block'})
     guardvocab.G2(ctx, scopes=('rt::mutex::', 'rt::rwlock::', 'rt::object::Ref', 'sync::mutex::', 'sync::rwlock::'))
     guardvocab.G3(ctx, scopes=('rt::mutex::', 'rt::rwlock::', 'rt::object::Ref', 'sync::mutex::', 'sync::rwlock::'))
-    g_state.run_all(ctx, ["S2", "S3", "S5", "S5b", "S7", "S9", "D2"])
+    g_state.run_all(ctx, ["S2", "S3", "S5", "S5b", "S7", "S9", "S10", "D2"])
     g_sync.run_all(ctx, ["Y1:mutex,rwlock", "Y1c"])
     L1(ctx)
     L2(ctx)
